@@ -53,6 +53,7 @@ typedef struct myth_tls_key_entry {
 typedef struct myth_tls_key_allocator {
   myth_tls_key_entry_t * free;	/* head of free list */
   myth_tls_key_entry_t keys[myth_tls_n_keys]; /* cells in the free list */
+  myth_spinlock_t lock;		/* serializes alloc/dealloc (CAS alone suffers from ABA) */
 } myth_tls_key_allocator_t;
 
 /* 
